@@ -43,6 +43,9 @@ func runCase(r *lib.Run, idx int, maxRound, maxSweeps *atomic.Int64) {
 	c := genConfig(rng, n, minByz)
 	c.label = tplNames[kind]
 	s := newSim(r, idx, c, rng)
+	for _, ch := range []byte(c.String()) { // the configuration is part of the schedule's identity
+		s.mix(uint64(ch))
+	}
 	s.consistentProposer = rng.IntN(2) == 0
 	prof := genProfile(rng, c)
 	hit := false
@@ -126,6 +129,7 @@ func runCase(r *lib.Run, idx int, maxRound, maxSweeps *atomic.Int64) {
 	r.Count("quorum_actions_at_exact_threshold", st.nearQuorum)
 	r.Count("split_exactly_one_below_quorum", st.belowQuorumIdle)
 	r.Count("trigger_sync_actions", st.triggerSync)
+	r.Count("template_T1_deep_variant_hits(one validator decided X before the stale proposal)", st.deepHits)
 	r.Count("stale_height_messages_delivered", st.rejectedByAge)
 	if s.suppressed > 0 {
 		r.Count("suppressed_non_agreement_reports(drill mode)", s.suppressed)
